@@ -113,7 +113,8 @@ func SrcMain(mode string) {
 
 	// 0. regression inputs of known defects
 	for _, t := range []string{"#\nx := 1\n", "x := 1 #\ny := 2\n", "x := ((a))\n", "println /*c*/ c\"hi\"\n", "x := a[(b?):c]\n",
-		"f x => (x + 1) * 2\n", "if (a) {\n}\n", "x := [ #C5\n]string{}\n", "echo 1r + 2\n", "x := (a + 1r) * b\n"} {
+		"f x => (x + 1) * 2\n", "if (a) {\n}\n", "if ((a)) {\n}\nfor ((a)) {\n}\nswitch (((a))) {\n}\n",
+		"switch x {\ncase 1:\n\tL: ;\ncase 2:\n}\n", "import (\n\ta \"math\"\n\tb \"math\"\n\t. \"os\"\n\t\"os\"\n)\n", "import (\n\t\"sort\"\n\t`os`\n\t\"\\x66mt\"\n)\n", "x := 1;;\n", "x := [ #C5\n]string{}\n", "echo 1r + 2\n", "x := (a + 1r) * b\n"} {
 		run(&Src{Name: "reg.xgo", Text: t, Line: srcLine(false, "reg.xgo", t)}, "regression")
 	}
 
@@ -147,6 +148,13 @@ func SrcMain(mode string) {
 		pg := NewProgGen(rr)
 		text, class, name := pg.Program()
 		run(&Src{Name: name, Class: class, Text: text, Line: srcLine(class, name, text)}, "generated")
+	}
+
+	// 2b. grammar-directed programs written by the harness's own pretty-printer (gram.go)
+	for i := 0; i < f.N; i++ {
+		rr := r.Fork(2000000 + i)
+		text, class, name := NewGram(rr).Program()
+		run(&Src{Name: name, Class: class, Text: text, Line: srcLine(class, name, text)}, "grammar")
 	}
 
 	// 3. AST mutants of corpus files, printed and fed back as sources
